@@ -17,6 +17,8 @@ func factsMore(x *extractor) {
 	x.factsRouting()
 	x.factsTable()
 	x.factsAging()
+	x.factsUnreach()
+	x.factsAds()
 }
 
 const netceptorGo = "pkg/netceptor/netceptor.go"
@@ -712,4 +714,108 @@ func (x *extractor) factsAging() {
 	}
 	x.set("aging_stamp_after_timeout_continue", after)
 	x.set("aging_cancel_test", test)
+}
+
+// ---------------------------------------------------------------- C16: unreachable notices
+
+func (x *extractor) factsUnreach() {
+	branch, filter, cancel, fields, from := "unknown", "unknown", "unknown", "unknown", "unknown"
+	if fd := x.fn(netceptorGo, "Netceptor", "handleMessageData"); fd != nil {
+		ast.Inspect(fd, func(n ast.Node) bool {
+			is, ok := n.(*ast.IfStmt)
+			if !ok || x.str(is.Cond) != "!ok || pc.context.Err() != nil" {
+				return true
+			}
+			parts := []string{x.str(is.Cond)}
+			for _, st := range is.Body.List {
+				if in, ok := st.(*ast.IfStmt); ok && strings.Contains(x.str(in.Body), "ProblemServiceUnknown") &&
+					strings.Contains(x.str(in.Body), "return fmt.Errorf") {
+					parts = append(parts, x.str(in.Cond)+":error")
+				}
+				if as, ok := st.(*ast.AssignStmt); ok && strings.Contains(x.str(as), "s.sendUnreachable(md.FromNode") &&
+					strings.Contains(x.str(as), "Problem: ProblemServiceUnknown") {
+					parts = append(parts, "notice:ProblemServiceUnknown")
+					var fs []string
+					ast.Inspect(as, func(m ast.Node) bool {
+						if kv, ok := m.(*ast.KeyValueExpr); ok && x.str(kv.Key) != "Problem" {
+							fs = append(fs, x.str(kv.Key)+":"+x.str(kv.Value))
+						}
+						return true
+					})
+					fields = strings.Join(fs, ";")
+				}
+			}
+			branch = strings.Join(parts, ";")
+			return false
+		})
+	}
+	if fd := x.fn(netceptorGo, "Netceptor", "sendUnreachable"); fd != nil {
+		ast.Inspect(fd, func(n ast.Node) bool {
+			if c, ok := n.(*ast.CallExpr); ok && x.str(c.Fun) == "s.sendMessage" && len(c.Args) == 4 {
+				from = strings.Trim(x.str(c.Args[0]), "\"") + "->" + x.str(c.Args[1]) + ":" + strings.Trim(x.str(c.Args[2]), "\"")
+			}
+			return true
+		})
+	}
+	if fd := x.fn("pkg/netceptor/packetconn.go", "PacketConn", "StartUnreachable"); fd != nil {
+		ast.Inspect(fd, func(n ast.Node) bool {
+			if is, ok := n.(*ast.IfStmt); ok && strings.Contains(x.str(is.Body), "pc.unreachableSubs.Publish(msg)") {
+				filter = x.str(is.Cond)
+			}
+			return true
+		})
+		// FromNode / FromService must be the message's own fields
+		if !strings.Contains(x.str(fd.Body), "FromNode := msg.FromNode") || !strings.Contains(x.str(fd.Body), "FromService := msg.FromService") {
+			filter = "unknown:" + filter
+		}
+	}
+	if fd := x.fn("pkg/netceptor/conn.go", "", "monitorUnreachable"); fd != nil {
+		ast.Inspect(fd, func(n ast.Node) bool {
+			if is, ok := n.(*ast.IfStmt); ok && strings.Contains(x.str(is.Body), "cancel()") && strings.Contains(x.str(is.Cond), "msg.") {
+				cancel = x.str(is.Cond)
+			}
+			return true
+		})
+	}
+	x.set("unreach_unknown_branch", branch)
+	x.set("unreach_socket_filter", filter)
+	x.set("unreach_dial_cancel", cancel)
+	x.set("unreach_notice_fields", fields)
+	x.set("unreach_sent_from", from)
+}
+
+// ---------------------------------------------------------------- C18: service advertisements
+
+func (x *extractor) factsAds() {
+	keep, relay, tomb := "unknown", "unknown", false
+	if fd := x.fn(netceptorGo, "Netceptor", "handleServiceAdvertisement"); fd != nil {
+		var parts []string
+		for _, st := range fd.Body.List {
+			if is, ok := st.(*ast.IfStmt); ok {
+				switch x.str(is.Cond) {
+				case "keepCur":
+					if strings.Contains(x.str(is.Body), "return nil") {
+						parts = append(parts, "keepCur:return")
+					} else {
+						// the refinement `if keepCur { if si.Time.After(cur.Time) { keepCur = false } }`
+						ast.Inspect(is.Body, func(n ast.Node) bool {
+							if in, ok := n.(*ast.IfStmt); ok && strings.Contains(x.str(in.Body), "keepCur = false") {
+								keep = x.str(in.Cond)
+							}
+							return true
+						})
+					}
+				}
+			}
+			if es, ok := st.(*ast.ExprStmt); ok && strings.HasPrefix(x.str(es), "s.flood(") {
+				parts = append(parts, x.str(es))
+			}
+		}
+		relay = strings.Join(parts, ";")
+		body := x.str(fd.Body)
+		tomb = strings.Contains(body, "serviceAdsWithdrawn") || strings.Contains(strings.ToLower(body), "tombstone")
+	}
+	x.set("ads_keep_test", keep)
+	x.set("ads_tombstones", tomb)
+	x.set("ads_relay", relay)
 }
